@@ -1,6 +1,7 @@
 import Tmv.Gen.Facts
 import Tmv.Model.MConn
 import Tmv.Model.PeerMsgs
+import Tmv.Model.ReactorMsgs
 /-! Expectations tying the C17 model to anchored source lines (facts are regenerated from /repo). -/
 namespace Tmv.Expect.C17
 
@@ -52,5 +53,18 @@ theorem receive_vote_lock_scope :
     Facts.cons_receive_vote_unlock_before_queue = true ∧
     Facts.cons_receive_vote_deferred_runlock = false ∧
     Facts.cons_receive_any_deferred_unlock = false := by decide
+
+/-- the part count of a proposal is bounded before `SetHasProposal` sizes an array with it; the two
+index-relevant lines of `libs/bits` the peer-state model mirrors are still there -/
+theorem peer_state_size_anchors :
+    Facts.cons_proposal_bounds_part_count = "m.Proposal.BlockID.PartSetHeader.Total > types.MaxBlockPartsCount" ∧
+    Facts.bits_pickRandom_reads_last_elem = true ∧ Facts.bits_sub_loop_bound = true := by decide
+
+/-- anchors of the small reactor models: the chunk-index guard of `chunkQueue.Add`, the base/height
+guard of the blockchain `ValidateMsg`, and the constants the bounds are stated with -/
+theorem other_reactor_anchors :
+    Facts.ss_chunk_index_guard = "chunk.Index >= q.snapshot.Chunks" ∧
+    Facts.bc_status_base_guard = "msg.Base > msg.Height" ∧
+    ReactorMsgs.maxTotalRequesters = 600 ∧ ReactorMsgs.pexMaxMsgSize = 64000 := by decide
 
 end Tmv.Expect.C17
